@@ -596,7 +596,7 @@ def same(mv, got, path='$'):
   """Returns None if `got` is exactly the value `mv` prescribes, else text."""
   if isinstance(mv, dict):
     if not isinstance(got, pg.Dict):
-      return f'{path}: expected pg.Dict, got {type(got).__name__}'
+      return f'{path}: expected a dict, got {type(got).__name__}'
     if set(got.sym_keys()) != set(mv.keys()):
       return f'{path}: keys {list(got.sym_keys())} != {list(mv.keys())}'
     for k, x in mv.items():
@@ -605,12 +605,13 @@ def same(mv, got, path='$'):
         return r
     return None
   if isinstance(mv, list):
-    if not isinstance(got, pg.List):
-      return f'{path}: expected pg.List, got {type(got).__name__}'
+    # (a root-level manyof decodes to a plain python list.)
+    if not isinstance(got, list):
+      return f'{path}: expected a list, got {type(got).__name__}'
     if len(got) != len(mv):
       return f'{path}: len {len(got)} != {len(mv)}'
     for i, x in enumerate(mv):
-      r = same(x, got.sym_getattr(i), f'{path}[{i}]')
+      r = same(x, list.__getitem__(got, i), f'{path}[{i}]')
       if r:
         return r
     return None
@@ -687,8 +688,8 @@ def pg_key(v):
     return ('h', v.name)
   if isinstance(v, pg.Dict):
     return ('d',) + tuple((k, pg_key(x)) for k, x in sorted(v.sym_items()))
-  if isinstance(v, pg.List):
-    return ('l',) + tuple(pg_key(x) for x in v.sym_values())
+  if isinstance(v, list):
+    return ('l',) + tuple(pg_key(x) for x in list.__iter__(v))
   if isinstance(v, pg.Object):
     items = [(k, pg_key(x)) for k, x in v.sym_items()]
     return ('o', type(v).__name__) + tuple(sorted(items))
@@ -1304,26 +1305,34 @@ def random_root(rnd, depth):
 def all_templates(tier, seed, with_where=True):
   """Yields (root, sel) for the systematic catalogue + random templates."""
   rnd = rng(seed, 'c13-templates')
+  quick = tier == 'quick'
   P = primitives(tier)
   ctxs = contexts()
   for pi, p in enumerate(P):
     for ci, (cname, ctx) in enumerate(ctxs):
-      if tier == 'quick' and cname not in ('root', 'two', 'three') and (pi + ci) % 3:
+      if quick:
+        if not (cname == 'root' or ci == 1 + (pi + seed) % (len(ctxs) - 1)):
+          continue
+      elif cname not in ('root', 'two', 'three') and (pi + ci + seed) % 3:
         continue
       root = assign_names(ctx(p(), P))
       yield root, None
-      if with_where and not has_ref(root) and cname in ('root', 'two', 'deep', 'three'):
-        if tier == 'quick' and (pi + ci) % 2:
-          continue
-        for sel in where_variants(root, rnd, 3 if tier == 'quick' else 8):
+      if not with_where or has_ref(root):
+        continue
+      if quick:
+        if (pi + seed) % 3 == 0 and (cname != 'root' or len(hyper_names(root)) > 1):
+          for sel in where_variants(root, rnd, 2):
+            yield root, sel
+      elif cname in ('root', 'two', 'deep', 'three') and (pi + ci) % 2 == 0:
+        for sel in where_variants(root, rnd, 3):
           yield root, sel
   for root in typed_templates():
     root = assign_names(root)
     yield root, None
     if with_where:
-      for sel in where_variants(root, rnd, 4 if tier == 'quick' else 10):
+      for sel in where_variants(root, rnd, 2 if quick else 4):
         yield root, sel
-  n_rand = 60 if tier == 'quick' else 700
+  n_rand = 16 if quick else 110
   for i in range(n_rand):
     root = assign_names(random_root(rnd, rnd.choice([1, 2, 2, 3])))
     yield root, None
@@ -1333,7 +1342,7 @@ def all_templates(tier, seed, with_where=True):
 
 
 def drv_decode_encode(tier, seed):
-  cap = 40 if tier == 'quick' else 150
+  cap = 12 if tier == 'quick' else 40
   rec = Recorder(
       'C13', 'decode/encode vs reference model over template shapes x DNAs',
       scope='catalogue: ~70 placeholder shapes (oneof; manyof 4 modes, k<=3, '
@@ -1345,7 +1354,7 @@ def drv_decode_encode(tier, seed):
   for root, sel in all_templates(tier, seed):
     try:
       check_template(rec, root, sel, rnd, cap,
-                     deep_checks=3 if tier == 'quick' else 6)
+                     deep_checks=2 if tier == 'quick' else 4)
     except Exception as e:  # pylint: disable=broad-except
       rec.case('harness/' + signature(root, sel), (src(root), sel), False,
                f'harness error {type(e).__name__}: {e}', src(root))
